@@ -357,6 +357,13 @@ def expand(num, j, radix):
         digits = to_radix((fr << (d * bits)) >> j, radix).rjust(d, '0') if d else ''
     return to_radix(ip, radix), digits
 
+def long_run(rng, typical):
+    """length of a run of zeros / nines after a tie: usually short, with a heavy tail around and beyond every power of two up to ~1100 (a defect that caps the number
+    of digits looked at shows only beyond its cap)"""
+    if rng.random() < 0.8:
+        return rng.randint(0, typical)
+    return rng.choice([41, 47, 63, 64, 65, 66, 70, 100, 127, 128, 129, 130, 200, 255, 256, 257, 300, 511, 512, 513, 700, 1023, 1024, 1025, 1100]) + rng.choice([0, 0, 1, -1, rng.randint(0, 9)])
+
 def literal_for(rng, s, n, f, radix):
     """one literal (str) that is interesting for layout (s, n, f) in the radix"""
     lo, hi = rng_range(s, n)
@@ -403,10 +410,10 @@ def literal_for(rng, s, n, f, radix):
             if 0 <= d < radix ** cut:
                 fp = to_radix(d, radix).rjust(cut, '0')        # prefix +- one unit in the last place
         elif v < 0.80:
-            fp = fp + '0' * rng.randint(0, 40) + rng.choice(['1', '0', DIG[radix - 1]])   # a hair above / trailing zeros
+            fp = fp + '0' * long_run(rng, 40) + rng.choice(['1', '0', DIG[radix - 1]])   # a hair above / trailing zeros
         else:
             if fp:
-                fp = fp[:-1] + DIG[max(0, int(fp[-1], radix) - 1)] + DIG[radix - 1] * rng.randint(1, 60)   # a hair below
+                fp = fp[:-1] + DIG[max(0, int(fp[-1], radix) - 1)] + DIG[radix - 1] * max(1, long_run(rng, 60))   # a hair below
         lit = ip + '.' + fp
     elif r < 0.55:
         # on the grid, with redundant zeros
@@ -458,6 +465,10 @@ def fmt_spec(rng, kinds):
     plus, alt, zero = (int(rng.random() < 0.3) for _ in range(3))
     width = rng.choice(['-', '-', '0', '1', '5', '12', '40', str(rng.randint(0, 140))])
     prec = rng.choice(['-', '-', '-', '0', '1', '2', '3', '5', '10', '17', '40', str(rng.randint(0, 200))])
+    if rng.random() < 0.02:      # beyond every plausible internal cap (buffer sizes 128/130, u8 counters): heavy tail, kept rare because the verdict is slow there
+        width = str(rng.choice([141, 200, 255, 256, 257, 300, 1000]))
+    if rng.random() < 0.02:
+        prec = str(rng.choice([126, 127, 128, 129, 130, 131, 201, 255, 256, 257, 300, 1000]))
     return [kind, fa, plus, alt, zero, width, prec]
 
 def fmt_vals(rng, s, n, f, count):
